@@ -64,6 +64,27 @@ def _okey(v):
     return str(v) if size_of(v) < 400 else str(hcons(v))
 
 
+def truth(v):
+    """Canonical form of a value used as a condition: len(x) > 0, len(x) != 0, bool(x) -> x ; len(x) == 0 -> not x."""
+    name = getattr(getattr(v, "func", None), "__name__", "")
+    if name == "bool" and len(v.args) == 1:
+        return truth(v.args[0])
+    if name.startswith("cmp_") and len(v.args) == 2:
+        a, b = v.args
+        an = getattr(getattr(a, "func", None), "__name__", "")
+        if an == "len" and len(a.args) == 1 and b.is_Integer:
+            x, k = a.args[0], int(b)
+            if (name, k) in (("cmp_Gt", 0), ("cmp_GtE", 1), ("cmp_NotEq", 0)):
+                return x
+            if (name, k) in (("cmp_Eq", 0), ("cmp_Lt", 1), ("cmp_LtE", 0)):
+                return mk_not(x)
+    if name in ("band", "bor"):
+        return mk_bool(name, [truth(a) for a in v.args])
+    if name == "bnot":
+        return mk_not(truth(v.args[0]))
+    return v
+
+
 def mk_not(v):
     """Logical negation in canonical form (negated comparisons are flipped, double negation removed)."""
     name = getattr(getattr(v, "func", None), "__name__", "")
@@ -133,6 +154,8 @@ class PyVal:
         self.hc = {}                   # hash-consed receiver histories: symbol name -> value
         self.pc = []                   # path condition: branch tests / loop heads enclosing the statement being folded
         self.effects = []              # (path condition tuple, call value) for every call, in fold order
+        self.locals = set()            # names bound in the function being folded (parameters and assigned names)
+        self.views = {}                # local name -> (root key, value of the view expression): the local aliases part of root
 
     def _hcons(self, v):
         """Name a non-trivial value by the digest of its structure (keeps histories of mutated objects small)."""
@@ -219,13 +242,13 @@ class PyVal:
             v = self._v(node.operand, env)
             if isinstance(node.op, ast.USub): return -v
             if isinstance(node.op, ast.UAdd): return v
-            return mk_not(v)
+            return mk_not(truth(v))
         if isinstance(node, ast.BoolOp):
             vals = []
             pushed = 0
             try:
                 for x in node.values:
-                    v = self._v(x, env)
+                    v = truth(self._v(x, env))
                     vals.append(v)
                     # short circuit: the remaining operands are evaluated only when this one is true (and) / false (or)
                     self.pc.append(v if isinstance(node.op, ast.And) else mk_not(v))
@@ -249,7 +272,7 @@ class PyVal:
                 return self._v(node.body, env)
             if t is False:
                 return self._v(node.orelse, env)
-            c = self._v(node.test, env)
+            c = truth(self._v(node.test, env))
             return mk_where(c, self._under(c, self._v, node.body, env), self._under(mk_not(c), self._v, node.orelse, env))
         if isinstance(node, (ast.Tuple, ast.List)):
             return F("seq")(*[self._v(e, env) for e in node.elts]) if node.elts else sym("seq0")
@@ -315,13 +338,21 @@ class PyVal:
         kwv = {(k.arg or "**"): self._v(k.value, env) for k in node.keywords}
         v = self._call_value(node, env, name, args, kwv)
         self.calls.append((name, node, args, kwv, v))
+        for k in node.keywords:
+            if k.arg == "out" and isinstance(k.value, (ast.Name, ast.Attribute, ast.Subscript)):
+                self._store(k.value, F("out_of")(hcons(v, 40)), env)     # numpy writes the result into `out`
         if self.depth == 0 or name not in self.inline:
             self.effects.append((tuple(self.pc), name, v))
         # a mutating method anywhere in an expression updates its receiver
         f = node.func
         if isinstance(f, ast.Attribute) and f.attr in MUTATORS and isinstance(f.value, (ast.Name, ast.Attribute)) \
                 and not name.split(".")[0] in ("np", "numpy", "os", "math", "re"):
-            self._store(f.value, F("after_" + f.attr)(self._hcons(self._v(f.value, env)), *args), env)
+            recv_before = self._hcons(self._v(f.value, env))
+            keep = self.views.get(f.value.id) if isinstance(f.value, ast.Name) else None
+            self._store(f.value, F("after_" + f.attr)(recv_before, *args), env)
+            if keep is not None:
+                self.views[f.value.id] = keep
+                self._touch_root(f.value.id, sym("method_" + f.attr), F("seq")(*args) if args else sym("seq0"), env)
         return v
 
     def _inline_call(self, fn, args, kwv, skip_self):
@@ -361,6 +392,10 @@ class PyVal:
 
     def _call_value(self, node, env, name, args, kwv):
         short = name.split(".")[-1]
+        if isinstance(node.func, ast.Name) and node.func.id in env and env[node.func.id] != sym(node.func.id) \
+                and node.func.id not in self.inline:
+            # a local name bound to a function value (lambda, nested def, table lookup): the value is what is called
+            return F("calldyn")(hcons(env[node.func.id], 40), *args, *[F("kw")(sym("=" + k), v) for k, v in sorted(kwv.items())])
         if name in self.inline and self.depth < 3:
             v = self._inline_call(self.inline[name], args, kwv, skip_self=name.startswith("self."))
             if v is not None:
@@ -405,7 +440,8 @@ class PyVal:
                 raise AnalysisError("pyval: fold budget exceeded (too many paths)")
             if isinstance(st, ast.Return):
                 v = self.value(st.value, env) if st.value is not None else sym("None")
-                self.effects.append((tuple(self.pc), "return", F("returns")(hcons(v, 40))))
+                if getattr(self, "loop_depth", 0) > 0:      # (a return at the top level is compared through the merged value)
+                    self.effects.append((tuple(self.pc), "return!", F("returns")(hcons(v, 40))))
                 return Result(env, v, guards, "return")
             if isinstance(st, ast.Raise):
                 return Result(env, None, guards, "raise")
@@ -478,7 +514,7 @@ class PyVal:
             env.clear(); env.update(r.env)
             guards.extend(r.guards)
             return None
-        c = self.value(st.test, env)
+        c = truth(self.value(st.test, env))
         nc = mk_not(c)
         if self._terminates(st.body) or self._terminates(st.orelse):
             r1 = self._under(c, self.run, list(st.body) + list(rest), env)
@@ -518,13 +554,65 @@ class PyVal:
         term = r1.term if r1.term == r2.term else ("return" if "return" in (r1.term, r2.term) and None not in (r1.term, r2.term) else None)
         return Result(env, ret, g, term)
 
-    def _store(self, target, v, env):
-        if isinstance(target, ast.Name):
-            env[target.id] = v
-        elif isinstance(target, ast.Attribute):
-            env[pf.unparse(target)] = v
-            root = target.value
-            if isinstance(root, ast.Name) and root.id != "self" and root.id in env and env[root.id] != sym(root.id):
+    VIEW_METHODS = {"reshape", "ravel", "view", "transpose", "squeeze", "swapaxes", "T", "real", "imag", "flat"}
+    VIEW_FUNCS = {"np.asarray", "asarray", "np.reshape", "np.ravel", "np.transpose", "np.atleast_1d", "np.atleast_2d", "np.squeeze"}
+
+    def _view_root(self, node):
+        """(root key, True) when `node` is an expression that may alias (be a view of) a named object."""
+        if isinstance(node, ast.Name):
+            if node.id in self.views:
+                return self.views[node.id][0]
+            return node.id
+        if isinstance(node, ast.Attribute):
+            if node.attr in self.VIEW_METHODS:
+                return self._view_root(node.value)
+            d = pf.dotted(node)
+            return d
+        if isinstance(node, ast.Subscript):
+            return self._view_root(node.value)
+        if isinstance(node, ast.Call):
+            name = pf.call_name(node) or ""
+            if isinstance(node.func, ast.Attribute) and node.func.attr in self.VIEW_METHODS and name.split(".")[0] not in ("np", "numpy"):
+                return self._view_root(node.func.value)
+            if name in self.VIEW_FUNCS and node.args:
+                return self._view_root(node.args[0])
+        if isinstance(node, ast.IfExp):
+            return self._view_root(node.body) or self._view_root(node.orelse)
+        return None
+
+    def _note_view(self, name, node, v, env):
+        prev = self.views.pop(name, None)
+        if isinstance(node, ast.Name):
+            if node.id == name and prev is not None:
+                self.views[name] = prev
+            elif node.id in self.views:
+                self.views[name] = self.views[node.id]
+            return
+        if prev is not None:
+            self.views[name] = prev          # (visible to _view_root while the new binding is resolved)
+        root = self._view_root(node)
+        self.views.pop(name, None)
+        if root and (root != name or prev is not None):
+            self.views[name] = (root if root != name else prev[0], hcons(v, 40))
+
+    def _touch_root(self, name, how, v, env):
+        """A write through local `name` that aliases part of another object also writes that object."""
+        if name in self.views:
+            root, view = self.views[name]
+            env[root] = F("store_in")(hcons(env.get(root, sym(root)), 40), view, how, hcons(v, 40))
+
+    def _attr_written(self, target, v, env):
+        """Attribute `target` (x.a, x[i].a, x.a.b ...) now holds v: the object it belongs to changes with it."""
+        rootname = target.value
+        while isinstance(rootname, (ast.Attribute, ast.Subscript)):
+            rootname = rootname.value
+        if not isinstance(rootname, ast.Name):
+            return
+        if rootname.id in self.views:
+            self._touch_root(rootname.id, sym(pf.unparse(target)), v, env)
+        root = target.value
+        if isinstance(root, ast.Name):
+            if root.id != "self" and root.id in env and env[root.id] != sym(root.id):
                 # an object built here and handed on later carries the attributes set on it (order-insensitive)
                 cur = env[root.id]
                 base, attrs = cur, {}
@@ -533,6 +621,25 @@ class PyVal:
                     attrs = {str(a.args[0]): a for a in cur.args[1:]}
                 attrs["." + target.attr] = F("kv")(sym("." + target.attr), hcons(v, 40))
                 env[root.id] = F("withattrs")(base, *[attrs[k] for k in sorted(attrs)])
+            return
+        # x[i].a = v / x.b.a = v: the object reached from the named root is written
+        node = target.value
+        while isinstance(node, ast.Attribute) and not isinstance(node.value, ast.Name):
+            node = node.value
+        while isinstance(node, ast.Subscript):
+            node = node.value
+        rk = pf.unparse(node)
+        env[rk] = F("store_in")(hcons(env.get(rk, sym(rk)), 40), sym(pf.unparse(target)), hcons(v, 40))
+        if isinstance(node, ast.Attribute) and isinstance(node.value, ast.Name) and node.value.id not in ("self", "cls"):
+            # ... and so is the local object that holds it
+            self._attr_written(node, env[rk], env)
+
+    def _store(self, target, v, env):
+        if isinstance(target, ast.Name):
+            env[target.id] = v
+        elif isinstance(target, ast.Attribute):
+            env[pf.unparse(target)] = v
+            self._attr_written(target, v, env)
         elif isinstance(target, (ast.Tuple, ast.List)):
             for k, e in enumerate(target.elts):
                 if getattr(v, "func", None) == F("seq") and len(v.args) == len(target.elts):
@@ -543,14 +650,26 @@ class PyVal:
             base_key = pf.unparse(target.value)
             sl = nf.strip_broadcast(target.slice) if self.strip else target.slice
             cur = self._v(target.value, env)
-            env[base_key] = F("store")(cur, self._slice(sl, env), v)
-            # a store through a view writes the viewed object too: record it under the root name as well
-            root = target.value
-            while isinstance(root, (ast.Subscript, ast.Attribute)):
-                root = root.value
-            if isinstance(root, ast.Name) and not isinstance(target.value, ast.Name):
-                rk = root.id
-                env[rk] = F("store_in")(env.get(rk, sym(rk)), sym(base_key), self._slice(sl, env), v)
+            slv = self._slice(sl, env)
+            env[base_key] = F("store")(cur, slv, v)
+            if isinstance(target.value, ast.Name):
+                self._touch_root(target.value.id, slv, v, env)
+            else:
+                # a store through x.a[i][j] / x[i][j] writes the object named by the dotted root as well
+                node, path = target.value, [slv]
+                while isinstance(node, ast.Subscript):
+                    path.append(self._slice(node.slice, env))
+                    node = node.value
+                rk = pf.unparse(node)
+                if rk != base_key:
+                    env[rk] = F("store_in")(hcons(env.get(rk, sym(rk)), 40), F("seq")(*reversed(path)), hcons(v, 40))
+                if isinstance(node, ast.Attribute):
+                    self._attr_written(node, env[rk], env)
+                rootname = node
+                while isinstance(rootname, ast.Attribute):
+                    rootname = rootname.value
+                if isinstance(rootname, ast.Name) and rootname.id in self.views:
+                    self._touch_root(rootname.id, F("seq")(sym(rk), *reversed(path)), v, env)
         elif isinstance(target, ast.Starred):
             self._store(target.value, F("star")(v), env)
 
@@ -559,6 +678,8 @@ class PyVal:
             v = self.value(st.value, env)
             for t in st.targets:
                 self._store(t, v, env)
+                if isinstance(t, ast.Name):
+                    self._note_view(t.id, st.value, v, env)
         elif isinstance(st, ast.AnnAssign):
             if st.value is not None:
                 self._store(st.target, self.value(st.value, env), env)
@@ -567,7 +688,12 @@ class PyVal:
             rhs = self.value(st.value, env)
             fake = ast.BinOp(left=ast.Name("__cur", ast.Load()), op=st.op, right=ast.Name("__rhs", ast.Load()))
             v = self._v(fake, {"__cur": cur, "__rhs": rhs})
+            keep = self.views.get(st.target.id) if isinstance(st.target, ast.Name) else None
             self._store(st.target, v, env)
+            if keep is not None:
+                # in-place operator on an alias: the aliased object is written, and the name stays an alias
+                self.views[st.target.id] = keep
+                self._touch_root(st.target.id, sym("inplace_" + type(st.op).__name__), v, env)
         elif isinstance(st, ast.Expr):
             if isinstance(st.value, ast.Constant):
                 return
@@ -577,12 +703,16 @@ class PyVal:
                     return
                 f = st.value.func
                 v = self._call(st.value, env)
-                if isinstance(f, ast.Attribute):
+                root = f
+                while isinstance(root, (ast.Attribute, ast.Subscript)):
+                    root = root.value
+                is_obj = isinstance(root, ast.Name) and (root.id in ("self", "cls") or root.id in env or root.id in self.locals)
+                if isinstance(f, ast.Attribute) and is_obj:
                     # obj.method(...) as a statement: obj is updated by the call
                     if isinstance(f.value, (ast.Name, ast.Attribute)):
                         if f.attr not in MUTATORS:      # (mutators were recorded when the call was evaluated)
                             self._store(f.value, F("after_" + f.attr)(self._hcons(self._v(f.value, env)), self._hcons(v)), env)
-                else:
+                elif not name.startswith(PURE_PREFIX) and name not in PURE_NAMES:
                     for a in st.value.args:
                         if isinstance(a, (ast.Name, ast.Attribute)):
                             self._store(a, F("after_call")(self._hcons(self._v(a, env)), self._hcons(v)), env)
@@ -611,14 +741,17 @@ class PyVal:
             env.clear(); env.update(r.env)
             guards.extend(r.guards)
         elif isinstance(st, ast.Assert):
-            guards.append(F("guard")(mk_not(self.value(st.test, env))))
+            guards.append(F("guard")(mk_not(truth(self.value(st.test, env)))))
         elif isinstance(st, (ast.FunctionDef, ast.AsyncFunctionDef)):
             env[st.name] = self._nested_def(st, env)
         elif isinstance(st, ast.ClassDef):
             env[st.name] = self._opaque(st, env, "class")
         elif isinstance(st, ast.Delete):
             for t in st.targets:
-                env.pop(pf.unparse(t), None)
+                if isinstance(t, ast.Subscript):
+                    self._store(t, sym("deleted"), env)
+                else:
+                    env[pf.unparse(t)] = sym("deleted")
         elif isinstance(st, (ast.Break, ast.Continue)):
             env["__flow"] = F(type(st).__name__.lower())(env.get("__flow", sp.Integer(0)))
         elif isinstance(st, (ast.Pass, ast.Import, ast.ImportFrom, ast.Global, ast.Nonlocal)):
@@ -650,51 +783,44 @@ class PyVal:
                           F("seq")(*defaults) if defaults else sym("seq0"), F("seq")(*r.guards) if r.guards else sym("seq0"))
 
     def _loop(self, st, env, guards=None):
-        written = []
-
-        def note(root):
-            k = pf.unparse(root)
-            if k not in written:
-                written.append(k)
-        for n in pf.walk_stmts(ast.Module(body=list(st.body) + list(st.orelse), type_ignores=[])):
-            if isinstance(n, (ast.Assign, ast.AugAssign, ast.AnnAssign)):
-                tg = n.targets if isinstance(n, ast.Assign) else [n.target]
-                for t in tg:
-                    for e in (t.elts if isinstance(t, (ast.Tuple, ast.List)) else [t]):
-                        root = e
-                        while isinstance(root, ast.Subscript):
-                            root = root.value
-                        if isinstance(root, (ast.Name, ast.Attribute)):
-                            note(root)
-            elif isinstance(n, ast.Expr) and isinstance(n.value, ast.Call) and isinstance(n.value.func, ast.Attribute) \
-                    and isinstance(n.value.func.value, (ast.Name, ast.Attribute)):
-                if not (pf.call_name(n.value) or "").startswith(NOOP_CALLS):
-                    note(n.value.func.value)
-            elif isinstance(n, (ast.For, ast.AsyncFor)):
-                for e in ast.walk(n.target):
-                    if isinstance(e, ast.Name):
-                        note(e)
-        sub = dict(env)
         targets = []
+        if isinstance(st, (ast.For, ast.AsyncFor)):
+            for e in ast.walk(st.target):
+                if isinstance(e, ast.Name):
+                    targets.append(e.id)
         self.loop_depth = getattr(self, "loop_depth", 0) + 1
         d = self.loop_depth
+        saved_views = dict(self.views)
         try:
-            if isinstance(st, (ast.For, ast.AsyncFor)):
-                for e in ast.walk(st.target):
-                    if isinstance(e, ast.Name):
-                        targets.append(e.id)
-                head = self.value(st.iter, env)
+            head = self.value(st.iter, env) if targets or isinstance(st, (ast.For, ast.AsyncFor)) else None
+            iter_root = self._view_root(st.iter) if isinstance(st, (ast.For, ast.AsyncFor)) else None
+            if isinstance(st, (ast.For, ast.AsyncFor)) and isinstance(st.iter, ast.Call):
+                # enumerate(x) / zip(x, y) / x.items() / sorted(x) ...: elements still belong to the first named argument
+                for a in list(st.iter.args) + ([st.iter.func.value] if isinstance(st.iter.func, ast.Attribute) else []):
+                    iter_root = iter_root or self._view_root(a)
+
+            def fold_body(carried):
+                sub = dict(env)
                 for k, t in enumerate(targets):
                     sub[t] = sym("it%d_%d" % (d, k))
-            carried = [w for w in written if w not in targets]
-            for w in carried:
-                sub[w] = sym("carry%d:%s" % (d, w))
-            if isinstance(st, ast.While):
-                head = self.value(st.test, sub)
-            e0 = len(self.effects)
-            r = self._under(F("in_loop")(head), self.run, list(st.body), sub)
+                    if iter_root:
+                        self.views[t] = (iter_root, sym("it%d_%d" % (d, k)))
+                for w in carried:
+                    sub[w] = sym("carry%d:%s" % (d, w))
+                hd = head
+                if isinstance(st, ast.While):
+                    hd = truth(self.value(st.test, sub))
+                return hd, sub, self._under(F("in_loop")(hd), self.run, list(st.body), sub)
+            # discovery pass: which names / objects does the body write (including through aliases)?
+            e0, c0, steps0 = len(self.effects), len(self.calls), self.steps
+            _, sub0, r0 = fold_body([])
+            del self.effects[e0:]
+            del self.calls[c0:]
+            carried = sorted(k for k in r0.env if not k.startswith("__") and k not in targets and r0.env[k] != sub0.get(k, None))
+            head, sub, r = fold_body(carried)
         finally:
             self.loop_depth -= 1
+            self.views = saved_views
         # carried variables keep their own name in the carry symbol: a temporary that is written before it is read never
         # mentions its symbol, so adding or removing temporaries does not disturb the other variables
         real = set()
@@ -747,11 +873,24 @@ class PyVal:
         if guards is not None:
             for g in r.guards:
                 guards.append(F("in_loop")(head, g))
+        if st.orelse:
+            # the else block runs only when the loop was not left by `break`
+            broke = F("broke")(head, hcons(flow, 3))
+            ro = self._under(mk_not(broke), self.run, list(st.orelse), env)
+            if flow == 0:
+                env.clear(); env.update(ro.env)
+            else:
+                m = self._merge(broke, Result(dict(env), None, [], None), ro, [])
+                env.clear(); env.update(m.env)
+            if guards is not None:
+                guards.extend(ro.guards)
 
 
 def fold_function(fn, facts=None, funcs=None, env=None, pure=(), inline=None, exact=False):
     pv = PyVal(funcs=funcs, facts=facts, pure=pure, exact=exact)
     pv.inline = inline or {}
+    from . import alpha
+    pv.locals = alpha._bound(fn) | {"self", "cls"}
     body = list(fn.body)
     if body and isinstance(body[0], ast.Expr) and isinstance(body[0].value, ast.Constant) and isinstance(body[0].value.value, str):
         body = body[1:]
@@ -762,7 +901,7 @@ def fold_function(fn, facts=None, funcs=None, env=None, pure=(), inline=None, ex
 
 
 PURE_PREFIX = ("np.", "numpy.", "math.", "sp.", "scipy.", "os.path.")
-PURE_NAMES = {"return", "len", "int", "float", "str", "bool", "isinstance", "getattr", "hasattr", "min", "max", "abs", "sum", "sorted", "list",
+PURE_NAMES = {"len", "int", "float", "str", "bool", "isinstance", "getattr", "hasattr", "min", "max", "abs", "sum", "sorted", "list",
               "dict", "tuple", "set", "zip", "enumerate", "range", "repr", "type", "id", "callable", "any", "all", "map", "filter",
               "reversed", "round", "divmod", "iter", "next", "frozenset", "OrderedDict", "slice", "super", "format", "ord", "chr",
               "sqrt", "exp", "log", "sin", "cos", "erf", "pi", "joinpath", "splitext", "basename", "dirname", "abspath", "realpath"}
@@ -778,12 +917,17 @@ def effect_trace(res):
         pcs = frozenset(map(str, pc))
         key = "%s :: %s" % (" & ".join(sorted(pcs)), v)
         short = name.split(".")[-1]
-        if name.startswith(PURE_PREFIX) or name in PURE_NAMES or (short in ("copy", "get", "keys", "values", "items", "astype", "flatten",
+        impure_np = name.startswith(("np.random", "numpy.random", "np.save", "np.put", "np.copyto", "np.place", "np.fill_diagonal",
+                                     "np.seterr", "np.load", "os.path.expanduser")) and not name.startswith("np.putmask_")
+        if impure_np:
+            pass
+        elif name.startswith(PURE_PREFIX) or name in PURE_NAMES or (short in ("copy", "get", "keys", "values", "items", "astype", "flatten",
                                                                             "reshape", "split", "strip", "join", "startswith", "endswith",
                                                                             "lower", "upper", "replace", "format", "index", "count", "tolist")
                                                                   and "." in name):
             pure.add(key)
-        elif key not in seen:
+            continue
+        if key not in seen:
             seen.add(key)
             ordered.append((key, frozenset(pc)))
     return ordered, pure
